@@ -9,7 +9,6 @@ CONSTANTS
   HCmds = {"tick", "clear", "execdrop"}
   Spurious = TRUE
   Strict = TRUE
-  Fix = {"D10b"}
+  Fix = {"D10b", "D11", "D12"}
 SPECIFICATION Spec
 INVARIANTS NoErr HomeOnly ExactlyOnce NoWakerLeak RcMatches NoLostJoinWake PendingBound ScntOk
-
